@@ -122,6 +122,21 @@ fn scripts() -> Vec<(&'static str, Vec<Unit>)> {
             long_line_units(),
         ),
         (
+            // a command that redirects the input descriptor twice: afterwards the shell goes on
+            // reading the script, not one of the files
+            "input-descriptor-redirected-twice",
+            vec![
+                u(&["p a"], &["a:0"]),
+                u(&["read x </tmp/d1 </tmp/d2"], &[]),
+                u(&["args \"$x\""], &["args[two]"]),
+                rd(u(&["read y", "DATA three"], &[])),
+                u(&["args \"$y\""], &["args[DATA three]"]),
+                u(&["{ read z; } </tmp/d1 </tmp/d2 0</tmp/d1; args \"$z\""], &["args[p one]"]),
+                u(&["f() { read w; }; f </tmp/d2 </tmp/d1 <&0; args \"$w\""], &["args[p one]"]),
+                u(&["p end"], &["end:0"]),
+            ],
+        ),
+        (
             "multi-line-compound",
             vec![
                 u(&["if s 0", "then", "  p t", "else", "  p e", "fi"], &["t:0"]),
@@ -287,6 +302,9 @@ fn setup_for(c: &Case, feed: Feed, chunks: Option<Vec<Vec<u8>>>) -> Setup {
         Feed::Eval => Setup::script("eval \"$(cat </tmp/script)\""),
     };
     s.files.push(("/tmp/script".into(), c.text.clone().into_bytes(), 0o644));
+    // data files whose content would run as commands if the shell mistook them for its input
+    s.files.push(("/tmp/d1".into(), b"p one\n".to_vec(), 0o644));
+    s.files.push(("/tmp/d2".into(), b"two\n".to_vec(), 0o644));
     s.cwd = Some("/".into());
     s
 }
